@@ -109,6 +109,37 @@ package types
 //@   ensures equity.Equity != nil ==> val(result.Equity) == val(equity.Equity)
 //@   ensures equity.Equity == nil ==> val(result.Equity) == 0
 
+// votes (C11): votesOf(a) is the candidate tally stored in a, voteForKey(a) identifies the candidate a currently votes for
+// (akey is an injective integer code of an address), isCand(a) is the registration flag in a's candidate profile
+//@ spec func votesOf(a AccountAccessor) mathint = gh("votes", a)
+//@ spec func akey(x common.Address) mathint = pairkey(x, 0)
+//@ spec func voteForKey(a AccountAccessor) mathint = gh("voteFor", a)
+//@ spec func isCand(a AccountAccessor) bool = gh("isCand", a) != 0
+//@ func (AccountAccessor).GetVotes   trusted
+//@   modifies nothing
+//@   ensures result != nil && fresh(result) && val(result) == votesOf(recv)
+//@ func (AccountAccessor).SetVotes   trusted
+//@   panics_if votes == nil
+//@   modifies gh("votes", recv)
+//@   ensures votesOf(recv) == val(votes)
+//@ func (AccountAccessor).GetVoteFor   pure trusted
+//@   opt reads=gh:voteFor
+//@   ensures akey(result) == voteForKey(recv)
+//@ func (AccountAccessor).SetVoteFor   trusted
+//@   modifies gh("voteFor", recv)
+//@   ensures voteForKey(recv) == akey(addr)
+//@ func (AccountAccessor).GetCandidateState   trusted
+//@   modifies nothing
+//@   ensures key == CandidateKeyIsCandidate ==> (result == IsCandidateNode <==> isCand(recv))
+//@ func (AccountAccessor).SetCandidateState   trusted
+//@   modifies gh("isCand", recv)
+//@   ensures key == CandidateKeyIsCandidate ==> (isCand(recv) <==> val == IsCandidateNode)
+//@   ensures key != CandidateKeyIsCandidate ==> isCand(recv) == old(isCand(recv))
+//@ func (AccountAccessor).GetCandidate   trusted
+//@   modifies nothing
+//@   ensures (has(result, CandidateKeyIsCandidate) && result[CandidateKeyIsCandidate] == IsCandidateNode) <==> isCand(recv)
+//@   ensures has(result, CandidateKeyIsCandidate) ==> result[CandidateKeyIsCandidate] == IsCandidateNode || result[CandidateKeyIsCandidate] == NotCandidateNode
+
 // balances (ghost: balanceOf); SetBalance panics on a negative balance (chain/account.(*Account).SetBalance)
 //@ func (AccountAccessor).GetBalance   trusted
 //@   modifies nothing
